@@ -11,7 +11,9 @@ ROOTS = ['/usr', '/etc', '/var', '/tmp', '/dev', '/opt', '/home', '']
 GLOBS = ['*', '**', '?', '[0-9]', '[^.]', '[a-f]*', '{,.}', '{a,b}', '{a,b{c,d}}', '@{int}', '@{hex}', '{,/}']
 NAMES = ['foo', 'bar', 'child-open', 'gpg', 'foo//bar', 'systemd-logind', 'unconfined', '@{p_systemd}', 'org.x.y',
          '"@{p_dbus}"', 'a_b', 'xdg-open', ':1.2', 'peer-1']
-COMMENTS = ['', '', '', ' c1', ' see bug 12', ' TODO: x, y', ' a=b (c)', " it's", ' # nested', ' {x}']
+COMMENTS = ['', '', '', ' c1', ' see bug 12', ' TODO: x, y', ' a=b (c)', " it's", ' # nested', ' {x}',
+            # prose that merely mentions a marker word where the parser does not look for it (shipped profiles have such lines)
+            ' apt-helper gets no new privs so rix it', ' see the no new privs note']
 WORDS = ['ext4', 'tmpfs', 'proc', 'overlay', 'fuse.foo']
 
 
